@@ -502,6 +502,12 @@ class Grid:
                     possible_metric_vars = [
                         self._metrics[ac] for ac in axis_combinations
                     ]
+                    # for each factor prefer the metrics located at the array's position;
+                    # only factors without such a metric are interpolated
+                    possible_metric_vars = [
+                        [mv for mv in mvs if set(mv.dims).issubset(array_dims)] or mvs
+                        for mvs in possible_metric_vars
+                    ]
                     for possible_combinations in itertools.product(
                         *possible_metric_vars
                     ):
